@@ -537,7 +537,7 @@ def stream_calls(ctx, tab, elk, bad_rows, only_keys=None):
             elif detail == "void":
                 pass
             elif detail == "Undefined":
-                key = "calls:return:%s#%s:got=undefined" % (decl, r["name"])
+                key = "calls:return:%s#%s:got=undefined" % (r["declin"] or decl, r["name"])
                 what = "%s returned the internal `undefined` marker, which is not a value of any declared type `%s`" % (c["expr"], r["ret"])
                 oracle = "runtime class of the result is a member of the declared return type"
             elif r["retset"] == "never":
